@@ -183,6 +183,14 @@ def inv1_all(g):
             for u in g._pred[v]:
                 if u not in g._succ or v not in g._succ[u] or g._succ[u][v] is not g._pred[v][u]:
                     return False
+    seen_lists = []
+    for u, v, tl in timelines(g):
+        # no timeline and no run object is shared between two interactions (spans of one pair never affect another)
+        for obj in [tl] + list(tl or []):
+            for other in seen_lists:
+                if obj is other:
+                    return False
+            seen_lists.append(obj)
     for u, v, tl in timelines(g):
         if tl is None or not inv.canonical(tl):
             return False
